@@ -216,6 +216,30 @@ theorem pix_metadata_content (lt : Lt) (b : Builder) (rows : List PixRow) (exps 
       · cases blk <;> simp [dictSet, setNfiles, dictGet, hk, ih]
   exact key _ _ _ (by intro h; simp)
 
+/-- `data_range` has one (min, max) pair per SELECTED row: extents `[2, rows.length]` (read back as
+`rows.length × 2`), for any selection of rows — nine by default, fewer or more with `rows=` -/
+theorem data_range_shape (lt : Lt) (full : Str) (rows : List PixRow) :
+    ∃ vals, lookupField [100,97,116,97,95,114,97,110,103,101] /-data_range-/
+        ((PixMeta.mk full (nPixels rows) (rows.map (rowRange lt))).fields.map (·.1))
+        ((PixMeta.mk full (nPixels rows) (rows.map (rowRange lt))).fields.map (·.2)) =
+      some (.f64s [2, rows.length] vals) ∧ vals.length = 2 * rows.length := by
+  refine ⟨(rows.map (rowRange lt)).flatMap (fun p => [p.1, p.2]), ?_, ?_⟩
+  · have : (rows.map (rowRange lt)).length = rows.length := by simp
+    rw [← this]; rfl
+  · rw [pairs_flat_length]; simp
+
+/-- and it is an array of DOUBLES whatever the dtype of the rows (current code, commit 88e1902: min
+and max are converted with `dtype='float64'`): type tag 3 and eight bytes per value -/
+theorem data_range_is_float64 (o : Order) (shape vals : List Nat) :
+    writeObj o (.f64s shape vals) = 3 :: (shapeBytes o shape ++ vals.flatMap (f64 o)) ∧
+    (writeObj o (.f64s shape vals)).length = 1 + (1 + 4 * shape.length) + 8 * vals.length := by
+  refine ⟨by simp [writeObj], ?_⟩
+  simp only [writeObj, List.length_cons, List.length_append, shapeBytes_length]
+  rw [length_flatMap_const _ _ 8 (fun v => f64_length o v)]
+  omega
+
+example : (writeObj .little (.f64s [2, 11] (List.replicate 22 0))).length = 1 + 9 + 8 * 22 := by decide +kernel
+
 /-! ### Experiments -/
 
 /-- run ids are 1-based: the stored double denotes exactly `run_id + 1` -/
